@@ -441,7 +441,7 @@ Definition ref_opc (s : list N) : list msg := ref_opc_f (length s) s.
 Inductive ast := A_PRE | A_FLAGS | A_LEN | A_PDU.
 Record astate := { a_st : ast; a_rdata : list N; a_len : N; a_out : N; a_block : N; a_cons : N;
                    a_lsize : N; a_psize : N; a_cap : N; a_valid : bool }.
-Definition adata (s : astate) : list N := rev (a_rdata s).
+Definition adata (s : astate) : list N := rev_append (a_rdata s) [].   (* linear-time reversal *)
 Definition ACN_PREAMBLE : N := ACN_HEADER_SIZE + ACN_PDU_BLOCK_SIZE.
 Definition a_init : astate :=
   {| a_st := A_PRE; a_rdata := []; a_len := 0; a_out := ACN_PREAMBLE; a_block := 0; a_cons := 0;
@@ -627,7 +627,7 @@ Section Rpc.
     let cur := p_cur s + k in
     let rb := rev_append got (p_rbody s) in
     if cur =? p_exp s then
-      let body := rev rb in
+      let body := rev_append rb [] in
       if ok body
       then Some ({| p_hdr := p_hdr s; p_exp := 0; p_rbody := rb; p_cur := cur; p_closed := false |},
                  r, [(rpc_label body, body)])
